@@ -70,6 +70,15 @@ UNITS = [
      [("atom_id_cache_init", "((uint32_t *)atom_id_cache)", "ATOM_CACHE_SIZE"),
       ("atom_obj_cache_init", "((uintptr_t *)atom_obj_cache)", "ATOM_CACHE_SIZE")]),
     ("Mcache", '#include "hdf_priv.h"\n#include "mcache_priv.h"\n', ["HASHSIZE","DEF_PAGESIZE","DEF_MAXCACHE","MCACHE_DIRTY","MCACHE_PINNED","ELEM_READ","ELEM_WRITTEN","ELEM_SYNC"], []),
+    # C05 bit I/O, n-bit coder, skipping Huffman coder (private macros and static tables of the .c files)
+    ("Hbitio", '#include "hdf_priv.h"\n#include "%s/hbitio.c"\n' % HS,
+     ["BITBUF_SIZE", "DATANUM", "BITNUM", ("LONG_MIN_AS_INT32", "(int32)LONG_MIN")],
+     [("maskc", "maskc", "9"), ("maskl", "maskl", "33")]),
+    ("Cnbit", '#include "hdf_priv.h"\n#include "hcomp_priv.h"\n#include "%s/cnbit.c"\n' % HS,
+     ["NBIT_BUF_SIZE", "NBIT_MASK_SIZE", "MAX_NT_SIZE"],
+     [("mask_arr8", "mask_arr8", "9"), ("mask_arr32", "mask_arr32", "33")]),
+    ("Cskphuff", '#include "hdf_priv.h"\n#include "hcomp_priv.h"\n#include "%s/cskphuff.c"\n' % HS,
+     ["SKPHUFF_MAX_CHAR", "SUCCMAX", "TWICEMAX", "ROOT", "TMP_BUF_SIZE"], []),
     ("Bitvect", '#include "hdf_priv.h"\n#include "%s/bitvect.c"\n' % HS,
      ["BV_DEFAULT_BITS", "BV_CHUNK_SIZE", "BV_BASE_BITS"],
      [("bv_first_zero", "bv_first_zero", "256"), ("bv_bit_value", "bv_bit_value", "8"), ("bv_bit_mask", "bv_bit_mask", "9")]),
@@ -310,7 +319,7 @@ def main():
         digest[fn] = hashlib.sha256(txt.encode()).hexdigest()[:16]
     for rel in ["hdf/src/hfile_priv.h", "hdf/src/hdf.h", "hdf/src/htags.h", "hdf/src/hlimits.h", "hdf/src/hntdefs.h", "hdf/src/crle.c",
                 "hdf/src/crle_priv.h", "hdf/src/atom.c", "hdf/src/bitvect.c", "hdf/src/bitvect_priv.h", "hdf/src/vg_priv.h", "hdf/src/hcomp.h", "hdf/src/mfan_priv.h", "hdf/src/mfan.c", "hdf/src/vgp.c", "hdf/src/vg.c",
-                "hdf/src/mcache.c", "hdf/src/mcache_priv.h", "hdf/src/dfkswap.c", "hdf/src/dfknat.c", "hdf/src/dfconv.c"]:
+                "hdf/src/mcache.c", "hdf/src/mcache_priv.h", "hdf/src/hbitio.c", "hdf/src/hbitio_priv.h", "hdf/src/cnbit.c", "hdf/src/cnbit_priv.h", "hdf/src/cskphuff.c", "hdf/src/cskphuff_priv.h", "hdf/src/dfkswap.c", "hdf/src/dfknat.c", "hdf/src/dfconv.c"]:
         p = os.path.join(repo, rel)
         if os.path.exists(p):
             sources[rel] = sha(p)
